@@ -3,6 +3,8 @@
 def _dest_of(toks):
     """destination kind printed by the harness for this observation, or None"""
     fam = toks[1] if len(toks) > 1 else ""
+    if len(toks) > 2 and "@" in toks[2]:
+        return toks[2].split("@", 1)[1]
     if fam in ("dy", "rat", "qi", "di") and len(toks) > 3:
         return toks[3]
     if fam == "poly" and len(toks) > 4:
@@ -146,7 +148,9 @@ PROPS = {
                       {"name": "h_container", "quick": 4000, "thorough": 40000},
                       {"name": "h_div", "quick": 4000, "thorough": 40000},
                       {"name": "h_gcd", "quick": 2500, "thorough": 30000},
-                      {"name": "h_res", "quick": 1200, "thorough": 15000}],
+                      {"name": "h_res", "quick": 1200, "thorough": 15000},
+                      {"name": "h_value", "quick": 250, "thorough": 4000},
+                      {"name": "h_alg", "quick": 250, "thorough": 4000}],
         "select": lambda t: t[1] in ("refs", "div", "gcd", "res", "vil") or _dest_of(t) in ("p", "a", "b", "c", "s"),
         "nontrivial": lambda t, r: True,
         "viol_filter": _c19_viol_filter,
